@@ -193,6 +193,16 @@ def check_minixr():
             bad = same(om[1], orr[1], "concat join=%s" % jn)
             if bad:
                 return n, bad
+    # order of Dataset.dims (data variables first) vs Dataset.indexes (coordinates), with a variable stored
+    # transposed relative to the coordinate declaration
+    tm = mx.Dataset(coords={"a": [1, 2, 3], "b": [10, 20]}, data_vars={"x": (("b", "a"), [[1.0, 2.0, 3.0], [4.0, 5.0, 6.0]])})
+    tr = xr.Dataset(coords={"a": [1, 2, 3], "b": [10, 20]}, data_vars={"x": (("b", "a"), np.array([[1.0, 2.0, 3.0], [4.0, 5.0, 6.0]]))})
+    n += 1
+    if list(tm.dims) != list(tr.dims) or list(tm.indexes) != list(tr.indexes):
+        return n, "dims/indexes order differs: %r %r vs %r %r" % (list(tm.dims), list(tm.indexes), list(tr.dims), list(tr.indexes))
+    n += 1
+    if cells_mini(tm.copy(deep=True)) != cells_real(tr) or tuple(tm["x"].transpose("a", "b").dims) != tuple(tr["x"].transpose("a", "b").dims):
+        return n, "transpose differs"
     em = cm.expand_dims("c")
     em.coords["c"] = [7]
     er = cr_.expand_dims("c")
